@@ -11,6 +11,15 @@ T_PATHS = 'bounded-exhaustive exploration of the row transition system (all row 
 T_HIST = 'explicit-state BFS over call histories on live objects with reflection snapshots'
 
 CHECKS = {
+    'C04': ("For every document of a bounded space (all row sequences to depth 3/4 after a clef row, 9-20 header configurations, <=1/2 deviations of a backbone) and each of 8 category "
+            "selections that keep durations or pitches, all six encodings are exported and related: plain == extended minus separators (three pairs), basic == full with the signifier "
+            "group removed note by note (chord sizes from the model), headers == '**'+prefix+type, non-note cells identical in all six.",
+            'Relational oracle between kernpy\'s own outputs; kv/model.py contributes only cell kinds, chord sizes and row alignment.', T_PATHS, 'DESIGN.md §3 C04'),
+    'C05': ("37-300 documents containing every cell kind and category x every distinct selected set denoted by the 705x704 (include<=2|None, exclude<=2) pairs (4368 sets), complements of "
+            "singles and pairs, and all 2^16 unions of top-level categories; each extended export is compared with T_cat applied to the abstract grid; kernpy's own selected-set "
+            "computation is re-asserted through the option parser.",
+            'Trusted: kv/model.py T_cat, kv/catref.py. Leniency: a chord left with only null notes makes its row optional; chord notes may show signifiers of their chord.',
+            'exhaustive enumeration of the option grid (reduced to distinct selected sets) on a document family, against a reference exporter', 'DESIGN.md §3 C05'),
     'C01': ("Token level: every abstract note of the stated alphabets (9 durations x 2-5 pitches x 8 accidentals x every signifier set of size <=2 from 37 signifiers; rests; chords) in "
             "EVERY written variant (order, slot before/after duration, pitch, accidental, doubling) - each abstract note must have exactly one normal form, and every normal form must be "
             "a fixed point of import-then-export through the plain route, the separator-stripping route and get_kern_from_ekern. Document level: all row sequences to depth 3/4 and all "
